@@ -59,7 +59,7 @@ const (
 )
 
 var propOf = map[string]string{
-	"PublishedWhole": "C12", "OnlyWhenAllAcked": "C12", "AtMostOnePending": "C12", "IdsStrictlyIncrease": "C12",
+	"PublishedWhole": "C12", "OnlyWhenAllAcked": "C12", "AtMostOnePending": "C12", "IdsStrictlyIncrease": "C12", "PublishedOnce": "C12",
 	"LoadsNewest": "C13", "NewestSurvives": "C13", "RetainNamesNewest": "C13", "OperatorsKeepNewest": "C13", "CurrentIsNewest": "C13",
 }
 
@@ -149,13 +149,21 @@ var _ locations.StorageLocation = (*gloc)(nil)
 // splitter is the stub SourceSplitter: Checkpoint() is called synchronously by
 // the acknowledgement that completes a checkpoint, which makes "the store
 // decided to publish" observable without waiting.
+//
+// With a scheduler (AdvAck arm) Checkpoint() parks at the gate "spl.checkpoint":
+// the acknowledgement that decided to publish is held inside finishSnapshot
+// while the harness issues further calls from other goroutines.
 type splitter struct {
 	connectors.UnimplementedSourceSplitter
 	calls atomic.Int64
+	s     *gate.Sched
 }
 
 func (s *splitter) Checkpoint() []byte {
 	n := s.calls.Add(1)
+	if s.s != nil {
+		s.s.At("spl.checkpoint", n)
+	}
 	return []byte("spl-" + strconv.FormatInt(n, 10))
 }
 
@@ -224,6 +232,8 @@ type harness struct {
 	dkv    bool
 	devs   map[string]bool
 	advers bool
+	advAck bool // AdvAck arm: calls are issued from their own goroutines, Checkpoint() is gated
+	slow   bool // SlowSub arm: the retained-checkpoints channel is unbuffered and its subscriber receives only at NotifyDeliver
 	names  map[uint64]string // id -> relative path of its snapshot file (learned from the real store)
 	ids    map[string]uint64 // relative path -> id
 	seeds  map[uint64][]byte // id -> file content produced by the real store
@@ -256,6 +266,26 @@ type incarnation struct {
 	notifs    []*held
 
 	sentNewest []uint64 // per notification sent and not yet delivered: spawnNewest of its goroutine
+
+	// SlowSub: the store sends on the unbuffered `sub`; the subscriber goroutine takes
+	// one value per permit and hands it to `retained`
+	sub     chan []uint64
+	permits chan struct{}
+	quit    chan struct{}
+
+	// AdvAck: acknowledgement calls parked inside splitter.Checkpoint(), and the ids
+	// whose publication this incarnation's store has decided
+	parked  []*ackCall
+	decided map[uint64]bool
+}
+
+// ackCall is an acknowledgement call held inside finishSnapshot (AdvAck arm).
+type ackCall struct {
+	k    int // the model's name of the call (Store.tla fin[..].k)
+	id   uint64
+	arr  *gate.Arrival
+	done chan any
+	pub  map[string]any
 }
 
 type run struct {
@@ -267,6 +297,8 @@ type run struct {
 	ninc int
 
 	listed []uint64 // snapshot ids in the directory as of the last storage operation
+
+	splArrivals []*gate.Arrival // AdvAck: arrivals at splitter.Checkpoint() seen by collect, not yet attributed
 }
 
 type drift struct{ msg string }
@@ -347,6 +379,8 @@ func newHarness(in *mbt.Input) (*harness, error) {
 	h.start = uint64(in.CfgInt("StartId", 0))
 	h.dkv = in.CfgBool("WithDkv", false)
 	h.advers = in.CfgBool("Adversarial", false)
+	h.advAck = in.CfgBool("AdvAck", false)
+	h.slow = in.CfgBool("SlowSub", false)
 	for _, d := range strList(in.Config["Switches"]) {
 		h.devs[d] = true
 	}
@@ -507,9 +541,44 @@ func (r *run) curID() uint64 {
 // startIncarnation = NewStore over the same directory + LoadCheckpoint.
 func (r *run) startIncarnation() error {
 	r.ninc++
-	inc := &incarnation{n: r.ninc, retained: make(chan []uint64, 256), events: make(chan string, 256), spl: &splitter{}, dbs: map[string]*opdb{}}
+	inc := &incarnation{n: r.ninc, retained: make(chan []uint64, 256), events: make(chan string, 256), spl: &splitter{}, dbs: map[string]*opdb{},
+		decided: map[uint64]bool{}, quit: make(chan struct{})}
 	inc.loc = &gloc{ld: r.ld, s: r.s, inc: r.ninc}
-	inc.store = newStore(inc.loc, inc.retained, inc.events, inc.spl)
+	if r.h.advAck {
+		inc.spl.s = r.s
+	}
+	toStore := inc.retained
+	if r.h.slow {
+		// a busy subscriber: nothing is received from the store's channel until the model delivers
+		inc.sub, inc.permits = make(chan []uint64), make(chan struct{}, 256)
+		toStore = inc.sub
+		quit := inc.quit
+		go func() {
+			defer func() { // the incarnation is over: let the senders that are left finish
+				for {
+					select {
+					case <-inc.sub:
+					case <-time.After(20 * time.Millisecond):
+						return
+					}
+				}
+			}()
+			for {
+				select {
+				case <-inc.permits:
+				case <-quit:
+					return
+				}
+				select {
+				case v := <-inc.sub:
+					inc.retained <- v
+				case <-quit:
+					return
+				}
+			}
+		}()
+	}
+	inc.store = newStore(inc.loc, toStore, inc.events, inc.spl)
 	r.inc = inc
 	if err := inc.store.LoadCheckpoint(); err != nil {
 		return driftf("LoadCheckpoint: %v", err)
@@ -538,7 +607,38 @@ func (r *run) crash() {
 			x.a.Release()
 		}
 	}
-	inc.writes, inc.removes, inc.notifs = nil, nil, nil
+	for _, c := range inc.parked {
+		c.arr.Release()
+	}
+	inc.writes, inc.removes, inc.notifs, inc.parked = nil, nil, nil, nil
+	if inc.quit != nil {
+		close(inc.quit)
+		inc.quit = nil
+	}
+}
+
+// receive takes the next retained-set the subscriber has got (SlowSub: lets the
+// subscriber receive one first).
+func (inc *incarnation) receive(d time.Duration) ([]uint64, bool) {
+	if inc.permits != nil {
+		inc.permits <- struct{}{}
+	} else {
+		d = 0
+	}
+	select {
+	case got := <-inc.retained:
+		return got, true
+	default:
+	}
+	if d == 0 {
+		return nil, false
+	}
+	select {
+	case got := <-inc.retained:
+		return got, true
+	case <-time.After(d):
+		return nil, false
+	}
 }
 
 // file classifies an arrival.
@@ -573,6 +673,8 @@ func (r *run) file(a *gate.Arrival) error {
 	case "snapshots.notify":
 		id, _ := a.Args[0].(uint64)
 		r.inc.notifs = append(r.inc.notifs, &held{a: a, id: id})
+	case "spl.checkpoint":
+		r.splArrivals = append(r.splArrivals, a)
 	default:
 		a.Release()
 	}
@@ -757,21 +859,160 @@ func (r *run) afterAck(st mbt.Step, splBefore int64) error {
 	return nil
 }
 
+// invoke runs one call of the store's API. Normally synchronously. In the AdvAck
+// arm the call runs on its own goroutine and invoke comes back when the call has
+// returned ("returned"), has parked inside splitter.Checkpoint() ("parked": it
+// decided to publish), or -- only while another call is parked there -- has
+// not come back within shortWait ("blocked": the store serialises it behind the
+// parked call).
+func (r *run) invoke(f func() any) (outcome string, res any, arr *gate.Arrival, done chan any) {
+	if !r.h.advAck {
+		return "returned", f(), nil, nil
+	}
+	done = make(chan any, 1)
+	go func() { done <- f() }()
+	d := wait
+	if len(r.inc.parked) > 0 {
+		d = shortWait
+	}
+	deadline := time.Now().Add(d)
+	for {
+		select {
+		case res = <-done:
+			return "returned", res, nil, done
+		default:
+		}
+		if len(r.splArrivals) > 0 {
+			arr, r.splArrivals = r.splArrivals[0], r.splArrivals[1:]
+			return "parked", nil, arr, done
+		}
+		if a, err := r.s.Await(gate.Point("spl.checkpoint"), 100*time.Microsecond); err == nil {
+			return "parked", nil, a, done
+		}
+		if time.Now().After(deadline) {
+			return "blocked", nil, nil, done
+		}
+	}
+}
+
+// ackAdv judges an acknowledgement of the AdvAck arm.
+func (r *run) ackAdv(st mbt.Step, id uint64, who string, outcome string, arr *gate.Arrival, done chan any) error {
+	inc := r.inc
+	pub := st.Map("pub")
+	want := pub != nil && pub["id"].(float64) != 0
+	switch outcome {
+	case "blocked":
+		if len(inc.parked) == 0 {
+			return driftf("acknowledgement of %s for checkpoint %d did not return", who, id)
+		}
+		return errSerialised
+	case "returned":
+		if want && len(inc.parked) > 0 {
+			return errSerialised // refused or ignored inside the window: the code does not admit the schedule
+		}
+		if want {
+			return driftf("all nodes acknowledged checkpoint %v but the store did not complete it", pub["id"])
+		}
+		return nil
+	}
+	// parked inside splitter.Checkpoint(): the store decided to publish checkpoint `id`
+	if inc.decided[id] {
+		var inflight []int
+		for _, c := range inc.parked {
+			inflight = append(inflight, c.k)
+		}
+		arr.Release()
+		return &violation{tag: "PublishedOnce", what: fmt.Sprintf("checkpoint %d is published a second time: an acknowledgement of %s arriving while the acknowledgement that completed the checkpoint was still inside finishSnapshot (splitter.Checkpoint()) found the complete snapshot pending and completed it again", id, who),
+			expected: "at most one publication per checkpoint id", observed: map[string]any{"id": id, "calls_inside_finishSnapshot": inflight}, pred: st.Map("pub")["again"] == true}
+	}
+	if !want {
+		arr.Release()
+		return &violation{tag: "OnlyWhenAllAcked", what: fmt.Sprintf("checkpoint %d was published although not every operator and source runner of the assembly has acknowledged it (pending id per call history: %d)", id, st.Int("pid")),
+			observed: map[string]any{"published_id": id}}
+	}
+	inc.decided[id] = true
+	k := 0
+	if f, ok := pub["spl"].(float64); ok {
+		k = int(f)
+	}
+	inc.parked = append(inc.parked, &ackCall{k: k, id: id, arr: arr, done: done, pub: pub})
+	return nil
+}
+
+// finishAdv lets a parked acknowledgement leave splitter.Checkpoint() and judges what it publishes.
+func (r *run) finishAdv(c *ackCall) error {
+	inc := r.inc
+	nw := len(inc.writes)
+	c.arr.Release()
+	select {
+	case <-c.done:
+	case <-time.After(wait):
+		return driftf("acknowledgement for checkpoint %d did not return from finishSnapshot", c.id)
+	}
+	if ok, err := r.collect(func() bool { return len(inc.writes) > nw }, wait); err != nil {
+		return err
+	} else if !ok {
+		return driftf("store completed checkpoint %d but no snapshot write arrived", c.id)
+	}
+	x := inc.writes[len(inc.writes)-1]
+	n, _ := c.arr.Args[0].(int64)
+	if v := r.checkContent(x.cp, c.pub, "spl-"+strconv.FormatInt(n, 10)); v != nil {
+		if v.tag == "" {
+			return driftf("%s", v.what)
+		}
+		return v
+	}
+	return nil
+}
+
 func (r *run) step(st mbt.Step) error {
 	inc := r.inc
 	h := r.h
 	switch st.Str("a") {
 	case "Create":
-		var id uint64
-		var created bool
-		var err error
-		if st.Bool("sp") {
-			id, created, err = inc.store.CreateSavepoint(h.ops, h.srs)
-		} else {
-			id, err = inc.store.CreateCheckpoint(h.ops, h.srs)
-			created = err == nil
+		type createRes struct {
+			id      uint64
+			created bool
+			err     error
 		}
+		outcome, res, _, _ := r.invoke(func() any {
+			var c createRes
+			if st.Bool("sp") {
+				c.id, c.created, c.err = inc.store.CreateSavepoint(h.ops, h.srs)
+			} else {
+				c.id, c.err = inc.store.CreateCheckpoint(h.ops, h.srs)
+				c.created = c.err == nil
+			}
+			return c
+		})
+		if outcome != "returned" {
+			if len(inc.parked) == 0 {
+				return driftf("Create did not return")
+			}
+			return errSerialised
+		}
+		id, created, err := res.(createRes).id, res.(createRes).created, res.(createRes).err
 		obs := map[string]any{"id": id, "created": created, "err": fmt.Sprint(err)}
+		if len(inc.parked) > 0 {
+			// issued while an acknowledgement is inside finishSnapshot: the schedule belongs to a design that
+			// releases the lock there; a store that answers otherwise than that design does not admit it
+			var matches bool
+			switch st.Str("ret") {
+			case "created":
+				matches = err == nil && created && id == uint64(st.Int("id"))
+			case "inprogress":
+				matches = err != nil
+			case "folded":
+				matches = err == nil && !created && id == uint64(st.Int("id"))
+			}
+			if !matches {
+				if err == nil && created && id <= uint64(st.Int("floor")) {
+					return &violation{tag: "IdsStrictlyIncrease", what: fmt.Sprintf("checkpoint id %d handed out although id %d was already handed out or published", id, st.Int("floor")),
+						expected: fmt.Sprintf("> %d", st.Int("floor")), observed: id}
+				}
+				return errSerialised
+			}
+		}
 		switch st.Str("ret") {
 		case "created":
 			if err != nil || !created {
@@ -807,8 +1048,13 @@ func (r *run) step(st mbt.Step) error {
 			}
 		}
 		before := inc.spl.calls.Load()
-		inc.store.AddOperatorSnapshot(&snapshotpb.OperatorCheckpoint{CheckpointId: id, OperatorId: op,
-			DkvFileUri: dkvStub(r.dir, op), KeyGroupRange: &snapshotpb.KeyGroupRange{Start: 0, End: 1}})
+		outcome, _, arr, done := r.invoke(func() any {
+			return inc.store.AddOperatorSnapshot(&snapshotpb.OperatorCheckpoint{CheckpointId: id, OperatorId: op,
+				DkvFileUri: dkvStub(r.dir, op), KeyGroupRange: &snapshotpb.KeyGroupRange{Start: 0, End: 1}})
+		})
+		if h.advAck {
+			return r.ackAdv(st, id, "operator "+op, outcome, arr, done)
+		}
 		return r.afterAck(st, before)
 	case "SrAck":
 		var states [][]byte
@@ -816,8 +1062,22 @@ func (r *run) step(st mbt.Step) error {
 			states = append(states, tok(uint64(t)))
 		}
 		before := inc.spl.calls.Load()
-		inc.store.AddSourceSnapshot(&jobpb.SourceRunnerCheckpointCompleteRequest{CheckpointId: uint64(st.Int("id")), SourceRunnerId: st.Str("sr"), SplitStates: states})
+		outcome, _, arr, done := r.invoke(func() any {
+			return inc.store.AddSourceSnapshot(&jobpb.SourceRunnerCheckpointCompleteRequest{CheckpointId: uint64(st.Int("id")), SourceRunnerId: st.Str("sr"), SplitStates: states})
+		})
+		if h.advAck {
+			return r.ackAdv(st, uint64(st.Int("id")), "source runner "+st.Str("sr"), outcome, arr, done)
+		}
 		return r.afterAck(st, before)
+	case "AckFinish":
+		k := st.Int("k")
+		for i, c := range inc.parked {
+			if c.k == k {
+				inc.parked = append(inc.parked[:i:i], inc.parked[i+1:]...)
+				return r.finishAdv(c)
+			}
+		}
+		return driftf("AckFinish(%d): no such acknowledgement is inside finishSnapshot", k)
 	case "PublishWrite":
 		id := uint64(st.Int("id"))
 		var x *held
@@ -840,9 +1100,16 @@ func (r *run) step(st mbt.Step) error {
 		x.op.uri, x.op.err = r.ld.Write(x.op.path, bytes.NewReader(x.op.data))
 		x.op.exec = true
 		x.a.Release()
+		d := wait
+		if len(inc.parked) > 0 {
+			d = shortWait
+		}
 		select {
 		case <-inc.events:
-		case <-time.After(wait):
+		case <-time.After(d):
+			if len(inc.parked) > 0 {
+				return errSerialised // the publication waits for the lock the parked acknowledgement holds
+			}
 			return driftf("PublishWrite(%d): publication did not finish", id)
 		}
 	case "PublishDelete":
@@ -877,6 +1144,14 @@ func (r *run) step(st mbt.Step) error {
 		}
 		n0 := len(inc.retained)
 		x.a.Release()
+		if h.slow {
+			// the subscriber is busy: whether and when this goroutine's send completes shows at NotifyDeliver
+			inc.sentNewest = append(inc.sentNewest, x.spawnNewest)
+			for t := time.Now(); time.Since(t) < 100*time.Microsecond; {
+				runtime.Gosched()
+			}
+			break
+		}
 		d := wait
 		if h.advers && !first {
 			d = shortWait
@@ -893,10 +1168,8 @@ func (r *run) step(st mbt.Step) error {
 		}
 		inc.sentNewest = append(inc.sentNewest, x.spawnNewest)
 	case "NotifyDeliver":
-		var got []uint64
-		select {
-		case got = <-inc.retained:
-		default:
+		got, ok := inc.receive(wait)
+		if !ok {
 			return driftf("NotifyDeliver: nothing to deliver")
 		}
 		pred := reflect.DeepEqual(got, []uint64{uint64(st.Int("id"))})
@@ -937,6 +1210,21 @@ func (r *run) step(st mbt.Step) error {
 			}
 		}
 		if !pred {
+			// the code delivers the sets in another order than the model: before the behaviour is
+			// abandoned, look at the order in which the sets already sent reach the subscriber
+			last := got
+			for range st.List("ch") {
+				next, ok := inc.receive(shortWait)
+				if !ok {
+					break
+				}
+				if maxU(next) < maxU(last) {
+					return &violation{tag: "RetainNamesNewest", what: fmt.Sprintf("operators are told to retain only %v after they had been told to retain %v (sets delivered so far: %v)", next, last, append(inc.delivered, next)),
+						expected: fmt.Sprintf("a set naming an id >= %d", maxU(last)), observed: next}
+				}
+				inc.delivered = append(inc.delivered, next)
+				last = next
+			}
 			return driftf("NotifyDeliver: %v predicted [%d]", got, st.Int("id"))
 		}
 	case "Restart":
@@ -976,6 +1264,10 @@ func (r *run) step(st mbt.Step) error {
 // directory, CurrentCheckpoint, the operators' DKVs.
 func (r *run) post(st mbt.Step) error {
 	inc, h := r.inc, r.h
+	if len(inc.parked) > 0 {
+		// an acknowledgement is held inside finishSnapshot: the store's lock may be taken
+		return nil
+	}
 	wantW := sortedU(u64s(st["w"]))
 	wantD := modelRemoveSets(st)
 	wantN := u64s(st["nt"])
@@ -992,6 +1284,7 @@ func (r *run) post(st mbt.Step) error {
 			x.seen, x.spawnNewest = true, newest
 		}
 	}
+	// 1. what the property demands of the observed state (whatever the model predicts)
 	// anything waiting that the model does not know about
 	for _, x := range inc.removes {
 		known := false
@@ -1004,11 +1297,13 @@ func (r *run) post(st mbt.Step) error {
 			return &violation{tag: "NewestSurvives", what: fmt.Sprintf("the store asks to remove the snapshot of checkpoint %d, the newest completed checkpoint", newest), observed: x.op.paths}
 		}
 	}
-	if !ok {
-		return driftf("waiting writes %v removes %v notifications %v; model: %v %v %v", heldIDs(inc.writes), removeSets(inc.removes), heldIDs(inc.notifs), wantW, wantD, wantN)
-	}
-	if !reflect.DeepEqual(sortedU(heldIDs(inc.writes)), wantW) || !reflect.DeepEqual(removeSets(inc.removes), wantD) || !reflect.DeepEqual(sortedU(heldIDs(inc.notifs)), sortedU(wantN)) {
-		return driftf("waiting writes %v removes %v notifications %v; model: %v %v %v", heldIDs(inc.writes), removeSets(inc.removes), heldIDs(inc.notifs), wantW, wantD, wantN)
+	// a publication of a checkpoint whose publication was already decided
+	seenW := map[uint64]bool{}
+	for _, x := range inc.writes {
+		if seenW[x.id] {
+			return &violation{tag: "PublishedOnce", what: fmt.Sprintf("checkpoint %d is being published twice (two snapshot writes of the same checkpoint are in flight)", x.id), observed: heldIDs(inc.writes)}
+		}
+		seenW[x.id] = true
 	}
 	// storage: the newest completed checkpoint's file is there
 	if a := st.Str("a"); a == "PublishWrite" || a == "PublishDelete" || a == "Restart" || r.listed == nil {
@@ -1023,36 +1318,61 @@ func (r *run) post(st mbt.Step) error {
 		return &violation{tag: "NewestSurvives", what: fmt.Sprintf("the snapshot file of checkpoint %d, the newest completed checkpoint, has been removed (storage holds %v)", newest, listed),
 			expected: newest, observed: listed, pred: reflect.DeepEqual(sortedU(listed), sortedU(u64s(st["files"])))}
 	}
-	if !reflect.DeepEqual(sortedU(listed), sortedU(u64s(st["files"]))) {
-		return driftf("directory holds %v, model %v", sortedU(listed), u64s(st["files"]))
-	}
 	// the checkpoint the job would redeploy from
-	if got := r.curID(); got != newest {
+	got := r.curID()
+	if got != newest {
 		// `newest` ranges over everything ever published in this storage; the store must know it
 		return &violation{tag: "CurrentIsNewest", what: fmt.Sprintf("CurrentCheckpoint is %d although checkpoint %d is the newest completed one", got, newest),
 			expected: newest, observed: got, pred: got == uint64(st.Int("cur"))}
-	} else if got != uint64(st.Int("cur")) {
-		return driftf("CurrentCheckpoint %d predicted %d", got, st.Int("cur"))
+	}
+	// a retention announcement of a checkpoint that is not completed
+	for _, x := range inc.notifs {
+		if x.id > newest {
+			return &violation{tag: "RetainNamesNewest", what: fmt.Sprintf("the store is about to tell the operators to retain only checkpoint %d, which is not completed (its snapshot is not written); the newest completed checkpoint is %d", x.id, newest),
+				expected: newest, observed: x.id}
+		}
 	}
 	// at rest the last retained-set delivered names the newest completed checkpoint
-	if len(wantW) == 0 && len(wantN) == 0 && len(st.List("ch")) == 0 && len(inc.retained) == 0 && len(inc.delivered) > 0 {
+	if ok && len(wantW) == 0 && len(wantN) == 0 && len(st.List("ch")) == 0 && len(inc.retained) == 0 && len(inc.delivered) > 0 &&
+		len(inc.writes) == 0 && len(inc.notifs) == 0 {
 		if last := inc.delivered[len(inc.delivered)-1]; !hasU(last, newest) {
 			return &violation{tag: "RetainNamesNewest", what: fmt.Sprintf("at rest the last retained-set delivered is %v but the newest completed checkpoint is %d", last, newest), expected: newest, observed: last, pred: true}
 		}
 	}
+	var dkvIDs map[string][]uint64
 	if h.dkv && newest != 0 {
+		dkvIDs = map[string][]uint64{}
 		heldM := st.Map("held")
 		for _, op := range h.ops {
 			ids, err := inc.dbs[op].ids()
 			if err != nil {
 				return err
 			}
+			dkvIDs[op] = ids
 			if inc.dbs[op].taken[newest] && !hasU(ids, newest) {
 				return &violation{tag: "OperatorsKeepNewest", what: fmt.Sprintf("operator %s no longer keeps its DKV checkpoint %d of the newest completed job checkpoint (keeps %v) after retained-sets %v", op, newest, ids, inc.delivered),
 					expected: newest, observed: ids, pred: reflect.DeepEqual(sortedU(ids), sortedU(u64s(heldM[op])))}
 			}
-			if !reflect.DeepEqual(sortedU(ids), sortedU(u64s(heldM[op]))) {
-				return driftf("operator %s keeps DKV checkpoints %v, model %v", op, ids, heldM[op])
+		}
+	}
+	// 2. what the model predicts (a difference is drift: the behaviour is abandoned)
+	if !ok {
+		return driftf("waiting writes %v removes %v notifications %v; model: %v %v %v", heldIDs(inc.writes), removeSets(inc.removes), heldIDs(inc.notifs), wantW, wantD, wantN)
+	}
+	if !reflect.DeepEqual(sortedU(heldIDs(inc.writes)), wantW) || !reflect.DeepEqual(removeSets(inc.removes), wantD) || !reflect.DeepEqual(sortedU(heldIDs(inc.notifs)), sortedU(wantN)) {
+		return driftf("waiting writes %v removes %v notifications %v; model: %v %v %v", heldIDs(inc.writes), removeSets(inc.removes), heldIDs(inc.notifs), wantW, wantD, wantN)
+	}
+	if !reflect.DeepEqual(sortedU(listed), sortedU(u64s(st["files"]))) {
+		return driftf("directory holds %v, model %v", sortedU(listed), u64s(st["files"]))
+	}
+	if got != uint64(st.Int("cur")) {
+		return driftf("CurrentCheckpoint %d predicted %d", got, st.Int("cur"))
+	}
+	if dkvIDs != nil {
+		heldM := st.Map("held")
+		for _, op := range h.ops {
+			if !reflect.DeepEqual(sortedU(dkvIDs[op]), sortedU(u64s(heldM[op]))) {
+				return driftf("operator %s keeps DKV checkpoints %v, model %v", op, dkvIDs[op], heldM[op])
 			}
 		}
 	}
@@ -1063,11 +1383,14 @@ func (h *harness) replay(bi int, beh []mbt.Step, res *mbt.Result) {
 	r := &run{h: h, dir: h.newDir()}
 	defer os.RemoveAll(r.dir)
 	r.ld = locations.NewLocalDirectory(r.dir)
-	r.s = gate.New("loc.write", "loc.remove", "snapshots.notify")
+	r.s = gate.New("loc.write", "loc.remove", "snapshots.notify", "spl.checkpoint")
 	verifhook.Install(r.s.At, nil)
 	defer func() {
 		if r.inc != nil {
 			r.inc.loc.dead.Store(true)
+			if r.inc.quit != nil {
+				close(r.inc.quit)
+			}
 		}
 		r.s.FreeRun()
 		verifhook.Install(nil, nil)
